@@ -6,9 +6,11 @@ import webob
 
 
 class Resp(object):
-    __slots__ = ('status', 'headers', 'body', '_json', 'escaped')
+    __slots__ = ('status', 'headers', 'body', '_json', 'escaped',
+                 'http_raised')
 
     def __init__(self, status, headers, body, escaped=None):
+        self.http_raised = False
         self.status = status
         self.headers = headers
         self.body = body
@@ -102,12 +104,14 @@ class Client(object):
             if len(self.log) > self.keep:
                 del self.log[:-self.keep]
         n_esc = appmod.ESCAPED['n']
+        n_raised = appmod.HTTP_RAISED['n']
         resp = r.get_response(self.app.wsgi)
         esc = None
         if appmod.ESCAPED['n'] != n_esc:
             esc = appmod.ESCAPED['last']
         out = Resp(resp.status_int, {k.lower(): v for k, v in
                                      resp.headers.items()}, resp.body, esc)
+        out.http_raised = appmod.HTTP_RAISED['n'] != n_raised
         if entry is not None:
             entry['resp'] = out.brief()
             if esc:
